@@ -176,6 +176,18 @@ func batch(r *vh.Run, i int) {
 		e.have[n] = map[string][]byte{}
 		e.tags[n] = map[string]string{}
 	}
+	if kind == vh.MemDir {
+		// the memory store reads a backing directory only where it is an OCI layout: a directory store creates the
+		// repositories first (before the path monitor is switched on - these are not requests of the batch)
+		un0 := vfs.Register(outer, func(vfs.Event) {})
+		ps := vh.New(vh.Conf(vh.Dir, root, vh.Neutral))
+		for _, n := range names {
+			b := []byte(fmt.Sprintf("backing content %d %s", i, n))
+			vh.Do(ps, vh.Req{Method: "POST", URL: "/v2/" + n + "/blobs/uploads/?digest=" + vh.DigestOf("sha256", b), Body: b})
+		}
+		_ = ps.Close()
+		un0()
+	}
 	unreg := vfs.Register(outer, e.monitor)
 	defer unreg()
 	p := vh.Neutral
